@@ -221,6 +221,27 @@ func introspectRemoteSchema(factory QueryerFactory, url string) (schema *ast.Sch
 
 func formatSchema(schema *ast.Schema) string {
 	buf := bytes.NewBufferString("")
+
+	// gqlparser prints only the renamed root operation types into the schema block, but a schema block
+	// switches the default names off when the text is loaded again: with some roots renamed and others not,
+	// the latter would be lost. Print the whole block here instead
+	q, m, s := schema.Query, schema.Mutation, schema.Subscription
+	if (q != nil && q.Name != "Query") || (m != nil && m.Name != "Mutation") || (s != nil && s.Name != "Subscription") {
+		buf.WriteString("schema {\n")
+		if q != nil {
+			buf.WriteString("\tquery: " + q.Name + "\n")
+		}
+		if m != nil {
+			buf.WriteString("\tmutation: " + m.Name + "\n")
+		}
+		if s != nil {
+			buf.WriteString("\tsubscription: " + s.Name + "\n")
+		}
+		buf.WriteString("}\n")
+		schema.Query, schema.Mutation, schema.Subscription = nil, nil, nil
+		defer func() { schema.Query, schema.Mutation, schema.Subscription = q, m, s }()
+	}
+
 	f := formatter.NewFormatter(buf)
 	f.FormatSchema(schema)
 	return buf.String()
